@@ -306,6 +306,10 @@ def run(chk):
                    "" if ok else "the proposal is not merged with `tensors`: after loadNeededValues the tensor set is replaced by the new selection alone and old points outside it evaluate without their coefficients")
     chk.floor("C01-D8.tensors", nprop, 3, "calls of proposeUpdatedTensors")
 
+    from rules import complete
+    nc9 = complete.complete_rule(chk, db, "C01-D9.complete")
+    chk.floor("C01-D9.complete", nc9, 5, "fallback loops in computeDAGup (instantiations)")
+
     from rules import dispatch
     chk.rule("C01-D7.dispatch", "every switch(effective_rule) in the local polynomial grid instantiates, in each case, the templates for the rule of that case")
     ndsp = dispatch.dispatch_rule(chk, db, "C01-D7.dispatch")
